@@ -8,10 +8,11 @@ use ast_grep_core::{Doc, Matcher, Node};
 use schemars::JsonSchema;
 use serde::{Deserialize, Serialize};
 use std::borrow::Cow;
-#[cfg(feature = "verif-hooks")]
-use crate::verif_hooks::VecSet as HashSet;
 #[cfg(not(feature = "verif-hooks"))]
 use std::collections::HashSet;
+
+#[cfg(feature = "verif-hooks")]
+use crate::verif_hooks::VecSet as HashSet;
 
 #[derive(Serialize, Deserialize, Clone, JsonSchema)]
 #[serde(rename_all = "camelCase")]
